@@ -71,16 +71,15 @@ theorem udnFromUsn_eq (u : Str) : C03.Parse.udnFromUsn (toS u) = (udnFromUsn u).
   rw [h]
   split <;> simp [toS]
 
-/-- **one location test**: `validLocation` is the C03 model's `locOk` with the prefix and needles
-    generated from `ssdp_listener.py` (search and advertisement use the same ones) -/
+/-- **one location test**: `validLocation` is by definition the C03 model's `locUsable` (decision on
+    the parsed host) with the generated constants; a usable location starts with the prefix `http` -/
 theorem validLocation_eq (l : Str) :
-    C03.Parse.locOk C03.genCfg.searchPrefix C03.genCfg.searchNeedles (toS l) = validLocation l
-    ∧ C03.Parse.locOk C03.genCfg.advPrefix C03.genCfg.advNeedles (toS l) = validLocation l := by
+    C03.Parse.locUsable C03.genCfg.searchPrefix C03.genCfg.schemes C03.genCfg.loopbackNames (toS l) = validLocation l :=
+  rfl
+
+theorem startsWith_http_of_valid {l : Str} (h : validLocation l = true) : startsWith l "http".toList = true := by
   have e1 : C03.genCfg.searchPrefix = "http" := by decide
-  have e2 : C03.genCfg.searchNeedles = ["://127.0.0.1", "://[::1]", "://169.254"] := by decide
-  have e3 : C03.genCfg.advPrefix = "http" := by decide
-  have e4 : C03.genCfg.advNeedles = ["://127.0.0.1", "://[::1]", "://169.254"] := by decide
-  rw [e1, e2, e3, e4]
-  simp [C03.Parse.locOk, validLocation, C03.Parse.isInfix, toS_toList, isPrefixOf_eq, isInfixL_eq, Bool.and_assoc]
+  simp only [validLocation, C03.Parse.locUsable, e1, Bool.and_eq_true, toS_toList] at h
+  rw [← isPrefixOf_eq]; exact h.1.1
 
 end Upnp.C13
